@@ -11,6 +11,7 @@ Layer 3: chmpy.surface functions on molecules / enclosed molecules along a separ
 Layer 4: the user-level wrappers returning Trimesh objects.
 Oracle: mc.ref.mesh (directed-edge manifold, signed volume, winding numbers) + level-set location.
 """
+from mc.paths import TEST_FILES
 import itertools
 import math
 
@@ -443,7 +444,7 @@ def wrapper_worker(part, job):
         else:
             from chmpy.crystal import Crystal
 
-            c = Crystal.load("/repo/src/chmpy/tests/test_files/" + arg)
+            c = Crystal.load(TEST_FILES + arg)
             if which == "crystal-hirshfeld":
                 meshes = c.hirshfeld_surfaces(separation=0.5, radius=8.0)
             else:
